@@ -116,6 +116,8 @@ def model_request(kind, p):
         return ("cbldm", [p["k"], ids_of(p), p["vals"], 1 if tl > 0 else 0, d, 0 if p.get("d_float") else 1, -1])
     if kind == "numitems":
         return ("numitems", [p["keep"], p["k"], p["i"]])
+    if kind == "snp_trace":
+        return (p["algo"] + "_trace", [1 if p.get("keep", True) else 0, p["k"], ids_of(p), p["vals"]])
     if kind == "ckk_nodes":
         return ("ckk_nodes", [1 if p.get("keep", True) else 0, p["k"], ids_of(p), p["vals"]])
     if kind == "bc_trace":
@@ -189,6 +191,11 @@ def norm_model(kind, p, r):
         return {"num": r}
     if kind == "ilp_full":
         return {"form": r}
+    if kind == "snp_trace":
+        res, tr = r
+        out = {"exc": res["err"]} if "err" in res else {"bins": res["ok"]}
+        out["trace"] = tr
+        return out
     if kind == "ckk_nodes":
         return {"num": r}
     if kind == "bc_trace":
@@ -246,6 +253,17 @@ def compare(kind, p, how, impl, model):
         return f"model error: {model['model_error']}"
     if kind == "ilp_full":
         return compare_ilp(p, impl, model)
+    if kind == "snp_trace":
+        if impl.get("exc") != model.get("exc"):
+            return f"impl {short(impl, 120)} vs model {short(model, 120)}"
+        it, mt = impl.get("trace", []), model.get("trace", [])
+        if it != mt:
+            k = next((i for i in range(min(len(it), len(mt))) if it[i] != mt[i]), min(len(it), len(mt)))
+            return (f"search trace differs at sub-collection #{k} pulled from the inclusion/exclusion tree: impl {it[k] if k < len(it) else 'ends (' + str(len(it)) + ')'} vs model "
+                    f"{mt[k] if k < len(mt) else 'ends (' + str(len(mt)) + ')'}")
+        if "bins" in model and impl.get("bins") != model["bins"]:
+            return f"impl {short(impl.get('bins'), 150)} vs model {short(model['bins'], 150)}"
+        return None
     if kind == "ckk_nodes":
         if "exc" in impl:
             return f"impl {short(impl, 120)} vs model {short(model, 120)}"
